@@ -68,6 +68,8 @@ def templates():
     T["class:decorators3_mixed"] = (CDECO + "d0 = cdeco(0)\n@probe(0, cdeco)(probe(1, 1))\n@d0\n@probe(2, cdeco(2))\nclass C:\n    v = probe(3, a)\nlog(C.tags, C.v)\n", [("a", "int")], "True")
     T["class:decorators_in_function"] = (CDECO + "def mk():\n    @probe(0, cdeco)(probe(1, 1))\n    @probe(2, cdeco)(probe(3, 2))\n    class C(probe(4, A)):\n        def who(self):\n            return C.tags\n    return C\nlog(mk()().who())\n", [], "True")
     T["class:decorators_in_class"] = (CDECO + "class Outer:\n    @probe(0, cdeco)(probe(1, 1))\n    @probe(2, cdeco)(probe(3, 2))\n    class C(probe(4, A)):\n        pass\nlog(Outer.C.tags)\n", [], "True")
+    T["class:name_decorator_rebound_by_body"] = ("def dn1(c):\n    probe(11)\n    c.by = 1\n    return c\ndef dn2(c):\n    probe(12)\n    c.by = 2\n    return c\ndn = dn1\ndef swap():\n    global dn\n    dn = dn2\n    return a\n@dn\nclass C:\n    v = probe(0, swap())\nlog(C.by, C.v, dn is dn2)\n", [("a", "int")], "True")
+    T["def:name_decorator_rebound_by_default"] = ("def dn1(f):\n    probe(11)\n    return f\ndef dn2(f):\n    probe(12)\n    return lambda *x: 'dn2'\ndn = dn1\ndef swap():\n    global dn\n    dn = dn2\n    return a\n@dn\ndef f(p=probe(0, swap())):\n    return p\nlog(f(), dn is dn2)\n", [("a", "int")], "True")
     T["class:bases_keywords_no_meta"] = ("class IS:\n    def __init_subclass__(cls, **kw):\n        cls.kw = sorted(kw.items())\nclass A: pass\nclass C(probe(0, A), probe(1, IS), k1=probe(2, a), k2=probe(3, b)):\n    pass\nlog(C.kw)\n", AB, "True")
     T["def:decorators_defaults_order"] = ("def deco(tag):\n    def d(fn):\n        probe(30 + tag)\n        return fn\n    return d\n@probe(0, deco)(probe(1, 1))\n@probe(2, deco)(probe(3, 2))\ndef f(p=probe(4, a), *, q=probe(5, b)):\n    return (p, q)\nlog(f())\n", AB, "True")
     T["def:method_decorators_defaults"] = ("def deco(tag):\n    def d(fn):\n        probe(30 + tag)\n        return fn\n    return d\nclass K:\n    @probe(0, deco)(probe(1, 1))\n    @probe(2, deco)(probe(3, 2))\n    def m(self, p=probe(4, a)):\n        return p\nlog(K().m())\n", [("a", "int")], "True")
